@@ -18,11 +18,13 @@ package funnel
 
 import (
 	"context"
+	"fmt"
 	"time"
 
 	"github.com/conduitio/conduit-commons/opencdc"
 	sdk "github.com/conduitio/conduit-processor-sdk"
 	"github.com/conduitio/conduit/pkg/foundation/cerrors"
+	"github.com/conduitio/conduit/pkg/foundation/cerrors/conduiterr"
 	"github.com/conduitio/conduit/pkg/foundation/log"
 )
 
@@ -112,6 +114,19 @@ func (t *ProcessorTask) Do(ctx context.Context, b *Batch) error {
 		return cerrors.Errorf("processor returned %d records for %d input records", len(recsOut), len(recsIn))
 	}
 	t.metrics.Observe(len(recsOut), start)
+
+	for i, rec := range recsOut {
+		if multiRec, ok := rec.(sdk.MultiRecord); ok && len(multiRec) > 1 && !b.splittable(i) {
+			// Batch.SplitRecord can only attach the pieces to a record that
+			// carries a source position (or already belongs to a split run).
+			ce := conduiterr.New(CodeEmptySourcePosition, fmt.Sprintf(
+				"processor split record %d of %d, which has no source position", i, len(recsIn),
+			))
+			ce.Suggestion = "the source connector emitted a record without a position; every record must " +
+				"carry a distinct, non-empty position. No records were acked, they will be redelivered on restart"
+			return ce
+		}
+	}
 
 	if len(recsIn) > len(recsOut) {
 		// Processor skipped some records, append empty records, so that we can
